@@ -114,6 +114,8 @@ type (
 		Err error
 		St  fmt.Stringer
 	}
+	// Unh is a comparable TYPE whose values need not be hashable: the interface field can hold a slice
+	Unh struct{ I interface{} }
 )
 
 // Emb embeds *S: S's fields (F, N, P, ...) and methods (Hello, Add, ...) are promoted.
@@ -244,6 +246,15 @@ var pool = []*pv{
 	{Name: "cplx", Kind: "complex", Odd: true, Mk: func() interface{} { return complex(1, 2) }},
 	{Name: "errval", Kind: "struct", Odd: true, Mk: func() interface{} { return errors.New("an error value") }},
 	{Name: "rune", Kind: "int32", Mk: func() interface{} { return 'x' }},
+	// slices of a non-empty interface type, keys that are comparable by type but not by value, a NaN map key
+	{Name: "errs", Kind: "slice", Odd: true, Mk: func() interface{} { return []error{errors.New("e0"), nil} }},
+	{Name: "stringers", Kind: "slice", Odd: true, Mk: func() interface{} { return []fmt.Stringer{Str{V: "s0"}} }},
+	{Name: "unhash", Kind: "struct", Odd: true, Mk: func() interface{} { return Unh{I: []int{1}} }},
+	{Name: "hashable", Kind: "struct", Odd: true, Mk: func() interface{} { return Unh{I: 1} }},
+	{Name: "munhkey", Kind: "map", Key: "struct", Odd: true, Mk: func() interface{} { return map[Unh]string{{I: 1}: "one"} }},
+	{Name: "manykey", Kind: "map", Key: "any", Odd: true, Mk: func() interface{} { return map[interface{}]string{1: "i", "s": "s", Unh{I: 1}: "u"} }},
+	{Name: "mnankey", Kind: "map", Key: "float", Odd: true, Mk: func() interface{} { return map[float64]string{math.NaN(): "nan", 1: "one"} }},
+	{Name: "merrval", Kind: "map", Key: "string", Odd: true, Mk: func() interface{} { return map[string]error{"a": errors.New("e")} }},
 	// structs that EMBED a pointer: fields and methods are promoted through it, also when it is nil
 	{Name: "embnil", Kind: "struct", Odd: true, Mk: func() interface{} { return Emb{Tag: "t"} }},
 	{Name: "pembnil", Kind: "ptr", Odd: true, Mk: func() interface{} { return &Emb{Tag: "t"} }},
